@@ -21,6 +21,9 @@ DEPENDS = [
     ("C07", {"only_rules": ["ARMS"],
              "why": "a token the grammar accepts but the reader has no arm for reaches unreachable!() - a panic on a "
                     "text that parses"}),
+    ("C05", {"only_rules": ["TRAVERSE", "UNROLL"],
+             "why": "the conversion to OptimizedRule ends in unreachable!() for bounded repetitions: it is unreachable only "
+                    "if the unroller's traversal reaches every sub-expression (every variant, tags included) and removes them"}),
 ]
 
 MANIFEST = {
